@@ -39,6 +39,7 @@ s = open(p).read()
 if "SEEDTABLE" in s:
     s = s.replace("SEEDTABLE", "<!-- seedtable -->\n" + table + "\n<!-- /seedtable -->")
 else:
-    s = re.sub(r"<!-- seedtable -->.*?<!-- /seedtable -->", "<!-- seedtable -->\n" + table + "\n<!-- /seedtable -->", s, flags=re.S)
+    new = "<!-- seedtable -->\n" + table + "\n<!-- /seedtable -->"
+    s = re.sub(r"<!-- seedtable -->.*?<!-- /seedtable -->", lambda m: new, s, flags=re.S)
 open(p, "w").write(s)
 print(table)
